@@ -148,9 +148,7 @@ def c05_b(ctx):
     ok = len(ab) == 1 and [exc.term(x) for x in ab[0].args] == [('param', 'batch'),
                                                                 ('param', 'batch_index')]
     if ok:
-        gs = ctx.guards(cb, ab[0])
-        ok = all(pol and match(t, pattern('self._pool is not None')) is not None
-                 for (t, pol, _) in gs) and len(gs) <= 1
+        ok = ctx.only_guarded_by(cb, ab[0], ('self._pool is not None', 'self._pool'), at_most=1)
     ctx.check(ok, cb, 'callback stores the batch', 'pool.add_batch(batch, batch_index) if a pool '
               'is set', 'the callback does not store (batch, batch_index) whenever a pool is set',
               fn=cb, node=ab[0] if ab else cb.node)
